@@ -146,8 +146,7 @@ def build_plan(facts: dict, rng, tier: str):
                         kind = 'single'
                     pairs.append({'sup': bid, 'typ': sid, 'kind': kind})
                     pairs.append({'sup': sid, 'typ': bid, 'kind': kind})
-                    if tier != 'quick' or rng.random() < 0.25:
-                        pairs.append({'sup': sid, 'typ': sid, 'kind': 'identical'})
+                    pairs.append({'sup': sid, 'typ': sid, 'kind': 'identical'})   # every documented value form must build against itself
         # shorthand spelled through the CLI must equal the explicit spelling
         if lang == 'cpp':
             for gname, g in facts['groups'][lang].items():
@@ -187,6 +186,7 @@ def build_plan(facts: dict, rng, tier: str):
             yid = S.add(lang, y, [], {k: v for k, v in y.items() if beff0.get(k) != v}, kind='transposition %s/%s' % (k1, k2))
             pairs.append({'sup': xid, 'typ': yid, 'kind': 'transposition'})
             pairs.append({'sup': yid, 'typ': xid, 'kind': 'transposition'})
+            pairs.append({'sup': xid, 'typ': xid, 'kind': 'identical'})
         # random multi-option differences
         rnd = []
         tries = 0
@@ -209,8 +209,7 @@ def build_plan(facts: dict, rng, tier: str):
             other = rng.choice(base_ids + rnd)
             pairs.append({'sup': sid, 'typ': other, 'kind': 'random'})
             pairs.append({'sup': other, 'typ': sid, 'kind': 'random'})
-            if rng.random() < 0.3:
-                pairs.append({'sup': sid, 'typ': sid, 'kind': 'identical'})
+            pairs.append({'sup': sid, 'typ': sid, 'kind': 'identical'})
         # omit-serialization-support: no support header at all
         oid = S.add(lang, dict(defaults), [], {}, omit=True, kind='omit')
         pairs.append({'sup': None, 'typ': oid, 'kind': 'omit'})
@@ -390,7 +389,14 @@ def main(chk: core.Check, replay: typing.Optional[str] = None) -> int:
     scratch = core.scratch('c17-')
     nvals = 80 if chk.tier == 'quick' else 1500
     values = gen_values(chk.rng, nvals)
-    job = {'scratch': scratch, 'dsdl': DSDL, 'root': 'demo', 'jobs': 6, 'keyset': ks_sym,
+    local_headers = {}
+    for L_ in ('c', 'cpp'):
+        for _k, vs in facts['domain'][L_]:
+            for v in vs:
+                mloc = re.fullmatch(r'"(verif_\w+\.hpp)"', v) if isinstance(v, str) else None
+                if mloc:
+                    local_headers[mloc.group(1)] = '#pragma once\n#include <vector>\n#include <memory>\n#if __cplusplus >= 201703L\n#include <memory_resource>\n#endif\n'
+    job = {'scratch': scratch, 'dsdl': DSDL, 'root': 'demo', 'jobs': 6, 'keyset': ks_sym, 'local_headers': local_headers,
            'sets': [{k: s[k] for k in ('id', 'lang', 'cli', 'overrides', 'omit')} for s in sets], 'pairs': []}
     set_by_id = {s['id']: s for s in sets}
     for p in pairs:
@@ -599,8 +605,15 @@ def main(chk: core.Check, replay: typing.Optional[str] = None) -> int:
                 viol = 'identical option sets but the guard fired'
             elif p.get('must_build') and r['rc'] != 0:
                 viol = 'identical default option sets do not build'
+            elif os_ is not None and r.get('guard_region_errors'):
+                viol = 'identical option sets, but the option-guard statements themselves do not compile: %s' % r['guard_region_errors'][0][2]
+            elif os_ is not None and r['rc'] != 0 and r.get('control_rc') == 0:
+                viol = 'identical option sets do not build, although the same headers build once the option-guard statements are removed'
             elif guard_silent and r['rc'] != 0 and os_ is not None:
                 stats['identical_pairs_not_building_for_other_reasons'] += 1
+                dflt = dict(facts['options'][L])
+                stats.setdefault('identical_not_building', []).append(
+                    '%s: %s' % (L, {k: v for k, v in ot_ if dflt.get(k, '<absent>') != v}))
         else:
             if guard_silent:
                 viol = 'option sets differ but nothing rejected the build'
